@@ -817,6 +817,13 @@ class RewriteOp(IRDLOperation):
         "($body^)? attr-dict-with-keyword"
     )
 
+    def verify_(self) -> None:
+        # the custom form only has a place for the external arguments after `with <name>`
+        if self.name_ is None and self.external_args:
+            raise VerifyException(
+                "expected no external arguments when the rewrite is specified inline"
+            )
+
     def __init__(
         self,
         root: SSAValue | None,
